@@ -9,6 +9,12 @@ DISPATCH = {
     'C04': 'check_registry.py', 'C05': 'check_registry.py',
     'C06': 'check_registry.py', 'C07': 'check_registry.py',
     'C08': 'check_registry.py', 'C09': 'check_registry.py',
+    'C01': 'check_declarations.py', 'C13': 'check_declarations.py',
+    'C19': 'check_declarations.py', 'C20': 'check_declalgebra.py',
+    'C10': 'check_c10.py', 'C11': 'check_lookupmem.py',
+    'C12': 'check_ordering.py', 'C14': 'check_adapt.py',
+    'C16': 'check_components.py', 'C17': 'check_signatures.py',
+    'C18': 'check_signatures.py',
 }
 
 
